@@ -231,7 +231,17 @@ func faultErr(ctx context.Context, d decision, op, id string) error {
 	if d.fault == "ctx" && ctx != nil && ctx.Err() != nil {
 		return ctx.Err()
 	}
-	return cerrors.Errorf("sim-fault %s %s %s", d.fault, op, id)
+	return cerrors.Errorf("sim-fault %s %s %s @s%d", d.fault, op, id, curStep())
+}
+
+// curStep is the scheduler step of the world that is running (one world at a time per process).
+var curWorld *World
+
+func curStep() int {
+	if curWorld == nil {
+		return 0
+	}
+	return curWorld.step
 }
 
 func (p *simSource) Open(ctx context.Context, req pconnector.SourceOpenRequest) (pconnector.SourceOpenResponse, error) {
@@ -363,7 +373,7 @@ func (s *simSrcStream) Recv() (pconnector.SourceRunResponse, error) {
 			return pconnector.SourceRunResponse{}, s.ctx.Err()
 		}
 		w.log(Event{Kind: "SRC_RECV_ERR", Ent: sys.cfg.ID, Inc: s.p.inc, Sess: sess.n})
-		return pconnector.SourceRunResponse{}, cerrors.Errorf("sim-fault %s %s", d.fault, sys.cfg.ID)
+		return pconnector.SourceRunResponse{}, cerrors.Errorf("sim-fault %s %s @s%d", d.fault, sys.cfg.ID, w.step)
 	}
 	max := len(sys.recs) - sess.next
 	if sess.stopping && sess.stopAt-sess.next+1 < max {
@@ -598,7 +608,7 @@ func (s *simDstStream) Send(req pconnector.DestinationRunRequest) error {
 			return s.ctx.Err()
 		}
 		w.log(Event{Kind: "DST_WRITE_ERR", Ent: sys.cfg.ID, Inc: s.p.inc, Sess: sess.n, N: len(req.Records)})
-		return cerrors.Errorf("sim-fault %s %s", d.fault, sys.cfg.ID)
+		return cerrors.Errorf("sim-fault %s %s @s%d", d.fault, sys.cfg.ID, w.step)
 	}
 	ids := make([]RecID, 0, len(req.Records))
 	pos := make([]string, 0, len(req.Records))
@@ -654,7 +664,7 @@ func (s *simDstStream) Recv() (pconnector.DestinationRunResponse, error) {
 			return pconnector.DestinationRunResponse{}, s.ctx.Err()
 		}
 		w.log(Event{Kind: "DST_ACK_ERR", Ent: sys.cfg.ID, Inc: s.p.inc, Sess: sess.n})
-		return pconnector.DestinationRunResponse{}, cerrors.Errorf("sim-fault %s %s", d.fault, sys.cfg.ID)
+		return pconnector.DestinationRunResponse{}, cerrors.Errorf("sim-fault %s %s @s%d", d.fault, sys.cfg.ID, w.step)
 	}
 	max := len(sess.pending)
 	if max > sys.cfg.MaxAckBatch {
